@@ -137,7 +137,7 @@ CHECKS.update({
 CHECKS.update({
     "C16": dict(
         technique="property-based testing over generated heap images: a header of pointer fields/arrays plus targets at generated absolute addresses, checked against the reference decoder at those addresses; stream-position, stability, null/past-the-end and pointer-arithmetic oracles",
-        text="generated images x pointer width {8,16,32,64} x endian x reader: header size and field offsets must follow the configured width, int(p) the unsigned stored address, dereference must equal the reference decode at that absolute offset (strings for char*), leave tell() unchanged even when it fails, stay stable after other dereferences, raise NullPointerDereference for null/stream-less and EOFError past the end; p+n / p-n keep type and stream; dumps reproduces the addresses",
+        text="generated images x pointer width {8,16,32,64} x endian x reader: header size and field offsets must follow the configured width, int(p) the unsigned stored address, dereference must equal the reference decode at that absolute offset (strings for char*), leave tell() unchanged even when it fails, stay stable after other dereferences, raise NullPointerDereference for null/stream-less and EOFError past the end; p+n / p-n keep type and stream; dumps reproduces the addresses; a repeated dereference returns the object the first one returned; arithmetic on null pointers read from the image",
         design_ref="DESIGN.md §4 C16",
     ),
 })
